@@ -246,6 +246,16 @@ def check(chk):
     kw_ = {k.arg: src(k.value) for c in pc_ for k in c.keywords}
     chk.ob("FWD-17", "a show step hands its nominal time to the players it drives (start_time=start_time)", len(pc_) == 1 and kw_.get("start_time") == "start_time" and
            "start_time" in [a.arg for a in spc.node.args.args], spc.where(pc_[0]) if pc_ else spc.where(), detail=str(kw_), construct=spc.ident, text="step time handed to players")
+    # a stopping show takes its own effects away before it tells anyone it has stopped: the players' contexts are cleared before the stop
+    # callback runs (a follow-up show started from the callback must not have its coils / lights taken away by the finished show's clean-up)
+    rst = repo.func("mpf/assets/show.py", "RunningShow.stop")
+    chk.analysed(rst)
+    rcf = rst.cfg()
+    clr_ = [n for n, c in rcf.calls_named("show_stop_callback")]
+    cbk_ = [n for n in rcf.nodes if n.kind == "stmt" and any(isinstance(c.func, ast.Attribute) and src(c.func) == "self.callback" for c in n.calls())]
+    ok_ = bool(clr_) and bool(cbk_) and all(not rcf.path_avoiding(b.id, [a.id], [], ignore_exc=True) for a in clr_ for b in cbk_)
+    chk.ob("REPL-17", "a stopping show clears its players' contexts before its stop callback runs", ok_, rst.where(cbk_[0].ast) if cbk_ else rst.where(), construct=rst.ident,
+           text="stop callback before context clean-up")
     from sa.rules.c09 import _suppression as _c09_suppression
     _c09_suppression(chk, repo)
     from sa.rules.c09 import _batch_skip_and_fadeout_source as _c09_bsf
@@ -778,6 +788,7 @@ def _token_cache(chk, repo):
 def battery():
     from sa.battery import M
     return [
+        M("stop callback runs before the contexts are cleared", "mpf/assets/show.py", "        # clear context in used players\n        for player in self._players:\n            self.machine.show_controller.show_players[player].show_stop_callback(self.context)\n\n        self._players = set()\n\n        if self.callback and callable(self.callback):\n            self.callback()\n", "        if self.callback and callable(self.callback):\n            self.callback()\n\n        # clear context in used players\n        for player in self._players:\n            self.machine.show_controller.show_players[player].show_stop_callback(self.context)\n\n        self._players = set()\n", "REPL-17"),
         M("fade-out starts from the colour on top of the stack", "mpf/devices/light.py", "            color_of_key = self._get_color_and_fade(stack, 0)[0]", "            color_of_key = self._get_color_and_fade(self.stack, 0)[0]", "FADE-2"),
         M("step time not handed to the players", "mpf/core/config_player.py", "show_tokens=show_tokens, context=context, start_time=start_time)", "show_tokens=show_tokens, context=context)", "FWD-17"),
         M("remembered fade compared by its start colour", "mpf/devices/light.py", "target_color == self._last_fade_target[2]", "target_color == self._last_fade_target[0]", "SUPP-1"),
